@@ -111,6 +111,8 @@ func TestVerif_C16(t *testing.T) {
 	}
 	for _, via := range []string{"UpdatePolicyOptions", "UpdateExportOptions"} {
 		vfC16OldConnRateLimit(rec, via)
+		vfC16CallerMemory(rec, via)
+		vfC16RefusedThenUpdate(rec, via)
 	}
 	st := evid.Pick(6, 300)
 	for s := 0; s < st && rec.Violations() < 25; s++ {
@@ -691,4 +693,141 @@ func vfC16PolicyLockState(n *AbsfsNFS) string {
 		}
 	}
 	return "busy"
+}
+
+// vfC16CallerMemory: the policy in force changes through an update (drain and swap) and through
+// nothing else. The program that configured the server keeps the option struct it passed in and
+// edits it afterwards (preparing its next update, say): slices and pointers inside it must not be
+// shared with the live policy, or requests would be judged under a policy no update ever installed.
+func vfC16CallerMemory(rec *evid.Rec, via string) {
+	for _, how := range []string{"New", via} {
+		fs := refs.New()
+		fs.PlantFile("/f", []byte("x"), 0644, 0, 0)
+		mine := []string{"10.0.0.9", "10.0.0.10"}
+		rl := DefaultRateLimiterConfig()
+		rl.PerIPRequestsPerSecond, rl.PerIPBurstSize = 1000000, 1000000
+		opts := ExportOptions{AttrCacheTimeout: 1}
+		if how == "New" {
+			opts.AllowedIPs, opts.EnableRateLimiting, opts.RateLimitConfig = mine, true, &rl
+		}
+		srv, err := vfNewSrv(fs, opts)
+		if err != nil {
+			rec.Infra(err.Error())
+			return
+		}
+		switch how {
+		case "UpdatePolicyOptions":
+			p := *srv.nfs.policy.Load()
+			p.AllowedIPs, p.EnableRateLimiting, p.RateLimitConfig = mine, true, &rl
+			err = srv.nfs.UpdatePolicyOptions(p)
+		case "UpdateExportOptions":
+			eo := srv.nfs.GetExportOptions()
+			eo.AllowedIPs, eo.EnableRateLimiting, eo.RateLimitConfig = mine, true, &rl
+			err = srv.nfs.UpdateExportOptions(eo)
+		}
+		if err != nil {
+			rec.Infra(err.Error())
+			srv.Close()
+			return
+		}
+		served := func(ip string) (bool, bool) {
+			c := srv.client()
+			c.IP = ip
+			_, raw, err := c.rawCall(vfProgMount, 3, 1, (&xdrw.W{}).Str("/").B)
+			if err != nil {
+				return false, false
+			}
+			rep, derr := rfc.DecodeReply(raw)
+			return derr == nil && !rep.Denied, derr == nil
+		}
+		a0, ok0 := served("10.0.0.9")
+		b0, ok1 := served("10.0.0.77")
+		// the caller now edits ITS OWN memory; no update is issued
+		mine[0] = "10.0.0.77"
+		rl.PerIPRequestsPerSecond, rl.PerIPBurstSize = 0, 0
+		rec.Eval(4)
+		a1, ok2 := served("10.0.0.9")
+		b1, ok3 := served("10.0.0.77")
+		if ok0 && ok1 && ok2 && ok3 {
+			if !a0 || b0 {
+				rec.Violate("C16/caller-memory/allow-list-not-in-force/configured-via="+how, fmt.Sprintf("AllowedIPs=[10.0.0.9 10.0.0.10]: 10.0.0.9 served=%v, 10.0.0.77 served=%v", a0, b0), nil)
+			} else if !a1 || b1 {
+				rec.Violate("C16/caller-memory/policy-changed-without-an-update/configured-via="+how, fmt.Sprintf("after the caller edited the slice it had passed (no update call): 10.0.0.9 served=%v, 10.0.0.77 served=%v", a1, b1), nil)
+			}
+		}
+		if got := srv.nfs.GetExportOptions(); len(got.AllowedIPs) != 2 || got.AllowedIPs[0] != "10.0.0.9" || got.RateLimitConfig == nil || got.RateLimitConfig.PerIPBurstSize != 1000000 {
+			rec.Violate("C16/caller-memory/reported-policy-changed-without-an-update/configured-via="+how, fmt.Sprintf("GetExportOptions reports AllowedIPs=%v RateLimitConfig=%+v after the caller edited its own copies", got.AllowedIPs, got.RateLimitConfig), nil)
+		}
+		rec.Distinct(fmt.Sprintf("caller-memory|%s|before=%v/%v|after=%v/%v", how, a0, b0, a1, b1))
+		srv.Close()
+	}
+}
+
+// vfC16RefusedThenUpdate: "the update finishes once in-flight requests finish" also after requests
+// that were REFUSED (bad credential, address not listed, unprivileged port, unknown program, garbage
+// arguments): every exit of HandleCall has to give its admission back. Checked structurally (is the
+// policy lock free once no request goroutine exists?) and by an actual update.
+func vfC16RefusedThenUpdate(rec *evid.Rec, via string) {
+	fs := refs.New()
+	fs.PlantFile("/f", []byte("x"), 0644, 0, 0)
+	srv, err := vfNewSrv(fs, ExportOptions{AttrCacheTimeout: 1, AllowedIPs: []string{"127.0.0.1"}, Secure: true})
+	if err != nil {
+		rec.Infra(err.Error())
+		return
+	}
+	defer srv.Close()
+	good := srv.client()
+	root, err := good.mnt("/")
+	if err != nil {
+		rec.Infra(err.Error())
+		return
+	}
+	type refusal struct {
+		name string
+		do   func(c *vfClient)
+	}
+	refusals := []refusal{
+		{"unsupported-credential-flavor", func(c *vfClient) { c.Cred = xdrw.Cred{Flavor: 6, Body: []byte{1, 2, 3, 4}}; c.rawCall(vfProgNFS, 3, 1, xdrw.ArgFH(root)) }},
+		{"unparsable-auth-sys", func(c *vfClient) { c.Cred = xdrw.Cred{Flavor: 1, Body: []byte{0, 0, 0, 1, 0, 0}}; c.rawCall(vfProgNFS, 3, 1, xdrw.ArgFH(root)) }},
+		{"address-not-listed", func(c *vfClient) { c.IP = "10.9.9.9"; c.rawCall(vfProgNFS, 3, 1, xdrw.ArgFH(root)) }},
+		{"unprivileged-port", func(c *vfClient) { c.Port = 40000; c.rawCall(vfProgNFS, 3, 1, xdrw.ArgFH(root)) }},
+		{"unknown-program", func(c *vfClient) { c.rawCall(424242, 1, 0, nil) }},
+		{"unknown-procedure", func(c *vfClient) { c.rawCall(vfProgNFS, 3, 77, nil) }},
+		{"wrong-version", func(c *vfClient) { c.rawCall(vfProgNFS, 2, 1, xdrw.ArgFH(root)) }},
+		{"garbage-arguments", func(c *vfClient) { c.rawCall(vfProgNFS, 3, 3, []byte{0, 0}) }},
+		{"stale-handle", func(c *vfClient) { c.rawCall(vfProgNFS, 3, 1, xdrw.ArgFH(0xdeadbeef)) }},
+		{"mount-refused-path", func(c *vfClient) { c.rawCall(vfProgMount, 3, 1, (&xdrw.W{}).Str("/nope").B) }},
+	}
+	for _, rf := range refusals {
+		for i := 0; i < 3; i++ {
+			rf.do(srv.client())
+		}
+		rec.Eval(3)
+		switch vfC16PolicyLockState(srv.nfs) {
+		case "busy":
+			rec.Inconclusive(1)
+		case "leaked":
+			rec.Violate("C16/policy-lock-still-held-at-quiescence/after-refused-request="+rf.name, "the request was answered, no request goroutine exists, yet the policy lock cannot be taken: the next policy update would wait for ever", nil)
+			return
+		}
+		done := make(chan error, 1)
+		go func() {
+			p := *srv.nfs.policy.Load()
+			p.MaxFileSize++
+			if via == "UpdatePolicyOptions" {
+				done <- srv.nfs.UpdatePolicyOptions(p)
+			} else {
+				eo := srv.nfs.GetExportOptions()
+				eo.MaxFileSize = p.MaxFileSize
+				done <- srv.nfs.UpdateExportOptions(eo)
+			}
+		}()
+		select {
+		case <-done:
+		case <-time.After(60 * time.Second):
+			rec.Inconclusive(1)
+			return
+		}
+		rec.Distinct(fmt.Sprintf("refused-then-update|%s|%s", via, rf.name))
+	}
 }
